@@ -211,8 +211,9 @@ def unparse_Name(node: Name) -> unparse_gen_t:
 def get_unescaped_str(string: str, qm: str) -> str:
     out = []
     for i in string:
-        if i == qm:
-            out.append(f"\\{qm}")
+        if i == qm[0]:
+            # (qm may be a triple quote)
+            out.append(f"\\{i}")
         elif ord(i) > 127 and i.isprintable():
             # (no escape: a backslash is not allowed in an f-string expr before python 3.12)
             out.append(i)
@@ -231,6 +232,13 @@ def unparse_Constant(node: Constant, qm: typing.Literal["'", '"']) -> unparse_ge
     if isinstance(node.value, str):
         value = get_unescaped_str(node.value, qm)
         return f"{qm}{value}{qm}"
+    if isinstance(node.value, bytes):
+        # the repr of bytes chooses the quote by itself, use `qm` instead
+        value = repr(node.value)
+        used_qm, value = value[1], value[2:-1]
+        if used_qm != qm[0]:
+            value = value.replace(qm[0], "\\" + qm[0])
+        return f"b{qm}{value}{qm}"
     if isinstance(node.value, (float, complex)):
         # repr of an infinite value is "inf", which is a name and not a literal
         return repr(node.value).replace("inf", _INF_STR)
@@ -238,13 +246,19 @@ def unparse_Constant(node: Constant, qm: typing.Literal["'", '"']) -> unparse_ge
     yield
 
 
-def _unparse_JoinedStr(node: JoinedStr, qm: typing.Literal["'", '"']) -> unparse_gen_t:
+def _unparse_JoinedStr(
+    node: JoinedStr, qm: typing.Literal["'", '"'], is_format_spec: bool = False
+) -> unparse_gen_t:
     contents = []
     for v in node.values:
         if isinstance(v, Constant):
             assert isinstance(v.value, str)
             s = get_unescaped_str(v.value, qm)
-            s = s.replace("{", "{{").replace("}", "}}")
+            if is_format_spec and sys.version_info >= (3, 12):
+                # `{{` is not an escaped brace in a format spec
+                s = s.replace("{", "\\x7b").replace("}", "\\x7d")
+            else:
+                s = s.replace("{", "{{").replace("}", "}}")
             contents.append(s)
         elif isinstance(v, FormattedValue):
             contents.append((yield PREC_FORMAT_EXPR_SLOT, v))
@@ -263,7 +277,7 @@ def unparse_FormattedValue(node: FormattedValue, qm) -> unparse_gen_t:
     format_spec = ""
     if node.format_spec is not None:
         assert isinstance(node.format_spec, JoinedStr)
-        format_spec = yield from _unparse_JoinedStr(node.format_spec, qm)
+        format_spec = yield from _unparse_JoinedStr(node.format_spec, qm, True)
         format_spec = ":" + format_spec
     if value[0] == "{":
         value = " " + value
@@ -563,6 +577,9 @@ def unparse_Await(node: Await) -> unparse_gen_t:
     return f"await {value}"
 
 
+_next_qm = {"": "'", "'": '"', '"': "'''", "'''": '"""', '"""': "'"}
+
+
 class _Node:
     gen: unparse_gen_t
 
@@ -602,10 +619,9 @@ class _Node:
         gen_func = self.gen_map.get(type(node), unparse_generic)
 
         if gen_func in [unparse_Constant, unparse_JoinedStr]:
-            if outer_str_qm == "'":
-                self.qm = '"'
-            elif outer_str_qm == '"':
-                self.qm = "'"
+            # A string in an f-string can't reuse the quotes of the outer f-strings
+            # before python 3.12, there are 4 kinds of quotes to be used
+            self.qm = _next_qm[outer_str_qm]
             self.gen = gen_func(node, self.qm)
         elif gen_func is unparse_FormattedValue:
             self.qm = outer_str_qm
@@ -635,7 +651,7 @@ they may have multiple slots with different slot precedence value.
 
 def expr_unparse(node: expr) -> str:
     stack: list[_Node] = []
-    stack.append(_Node(PREC_EXPR_SLOT, node, '"'))
+    stack.append(_Node(PREC_EXPR_SLOT, node, ""))
     converted: str | None = None
     while stack:
         try:
